@@ -107,3 +107,10 @@ Lemma helper_calls_ok : helper_calls =
    ("CreateScatterRegionOperator", ["NewBuilder"; "SetPeers"; "SetLeader"; "EnableLightWeight"; "EnableForceTargetLeader"; "Build"]);
    ("CreateLeaveJointStateOperator", ["NewBuilder"; "SkipOriginJointStateCheck"])].
 Proof. reflexivity. Qed.
+
+(* where peer ids come from: outside tests and mocks every metapb.Peer literal under server/ that sets Id copies the id of
+   an existing peer - the only new id is the one prepareBuild takes from b.cluster.AllocID(); every other new peer
+   (schedulers, checkers, handlers) reaches the builder with Id 0 *)
+Lemma peer_ids_ok : peer_literals_with_id =
+  ["server/core/region_option.go: WithLearners: each#v(learners).GetId()"; "server/schedule/filter/filters.go: createRegionForRuleFit: each#v(peers).Id"; "server/schedule/operator/builder.go: DemoteVoter: (b.targetPeers[storeID])#0.GetId()"; "server/schedule/operator/builder.go: PromoteLearner: (b.targetPeers[storeID])#0.GetId()"; "server/schedule/operator/builder.go: buildStepsWithJointConsensus: (b.toAdd[each#v(b.toAdd.IDs())]).GetId()"; "server/schedule/operator/builder.go: buildStepsWithJointConsensus: (b.toRemove[each#v(b.toRemove.IDs())]).GetId()"; "server/schedule/operator/builder.go: prepareBuild: (b.cluster.AllocID())#0"; "server/schedule/operator/builder.go: prepareBuild: each#v(b.originPeers).GetId()"; "server/schedule/operator/step.go: GetRequest: each#v(cpe.DemoteVoters).PeerID"; "server/schedule/operator/step.go: GetRequest: each#v(cpe.PromoteLearners).PeerID"; "server/schedule/operator_controller.go: addLearnerNode: id"; "server/schedule/operator_controller.go: addNode: id"].
+Proof. reflexivity. Qed.
